@@ -1089,3 +1089,77 @@ pub fn c07_add_output<S: Src>(_s: &mut S) {
     }
     assert!(failures.is_empty(), "{} outputs violate the property; first: {}", failures.len(), failures[0]);
 }
+
+// ---------------------------------------------------------------- C18: declared signer sets of native-script sources
+/// an inline native script satisfied by its time lock, with an explicitly EMPTY declared signer set, on a withdrawal, a
+/// certificate and a mint: the predicted size stays within one key witness of the transaction signed by the one key that
+/// really has to sign (the payment key)
+pub fn c18_declared_signers<S: Src>(_s: &mut S) {
+    let mut failures: Vec<String> = Vec::new();
+    for site in 0..3u8 {
+        for declared in [0usize, 1] {
+            let mut scripts = NativeScripts::new();
+            scripts.add(&NativeScript::new_script_pubkey(&ScriptPubkey::new(&kh(77))));
+            scripts.add(&NativeScript::new_timelock_start(&TimelockStart::new_timelockstart(&bn(10))));
+            let script = NativeScript::new_script_any(&ScriptAny::new(&scripts));
+            let mut src = NativeScriptSource::new(&script);
+            let mut ks = Ed25519KeyHashes::new();
+            if declared == 1 { ks.add(&kh(77)); }
+            src.set_required_signers(&ks);
+            let mut tb = TransactionBuilder::new(&config(true));
+            let mut ib = TxInputsBuilder::new();
+            ib.add_key_input(&kh(1), &TransactionInput::new(&TransactionHash::from([1u8; 32]), 0), &Value::new(&bn(500_000_000)));
+            tb.set_inputs(&ib);
+            let scred = Credential::from_scripthash(&script.hash());
+            match site {
+                0 => { let mut wb = WithdrawalsBuilder::new(); wb.add_with_native_script(&RewardAddress::new(0, &scred), &bn(5), &src).unwrap(); tb.set_withdrawals_builder(&wb); }
+                1 => { let mut cb = CertificatesBuilder::new(); cb.add_with_native_script(&Certificate::new_stake_deregistration(&StakeDeregistration::new(&scred)), &src).unwrap(); tb.set_certs_builder(&cb); }
+                _ => { let mut mb = MintBuilder::new(); mb.add_asset(&MintWitness::new_native_script(&src), &AssetName::new(vec![1]).unwrap(), &Int::new_i32(5)).unwrap(); tb.set_mint_builder(&mb); }
+            }
+            tb.add_output(&TransactionOutput::new(&addr(0, 50), &Value::new(&bn(10_000_000)))).unwrap();
+            tb.set_fee(&bn(2_000_000));
+            let predicted = match tb.full_size() { Ok(x) => x, Err(_) => continue };
+            let tx = match tb.build_tx_unsafe() { Ok(t) => t, Err(_) => continue };
+            let mut ws = tx.witness_set();
+            let mut vk = Vkeywitnesses::new();
+            vk.add(&Vkeywitness::new(&Vkey::new(&pubkey(1)), &sig()));
+            if declared == 1 { vk.add(&Vkeywitness::new(&Vkey::new(&pubkey(77)), &sig())); }
+            ws.set_vkeys(&vk);
+            let signed = Transaction::new(&tx.body(), &ws, tx.auxiliary_data()).to_bytes().len();
+            if predicted < signed { failures.push(format!("site {} declared {}: predicted size {} below the signed size {}", site, declared, predicted, signed)); }
+            if predicted >= signed + 100 { failures.push(format!("native script with {} declared signers (site {}): predicted size {} exceeds the signed size {} by a whole key witness", declared, site, predicted, signed)); }
+        }
+    }
+    // the same with the script behind a reference input: its declared signers are the only source of knowledge about who signs
+    for site in 0..3u8 {
+        let script = NativeScript::new_script_pubkey(&ScriptPubkey::new(&kh(77)));
+        let mut src = NativeScriptSource::new_ref_input(&script.hash(), &TransactionInput::new(&TransactionHash::from([9u8; 32]), 0), 40);
+        let mut ks = Ed25519KeyHashes::new();
+        ks.add(&kh(77));
+        src.set_required_signers(&ks);
+        let mut tb = TransactionBuilder::new(&config(true));
+        let mut ib = TxInputsBuilder::new();
+        ib.add_key_input(&kh(1), &TransactionInput::new(&TransactionHash::from([1u8; 32]), 0), &Value::new(&bn(500_000_000)));
+        tb.set_inputs(&ib);
+        let scred = Credential::from_scripthash(&script.hash());
+        match site {
+            0 => { let mut wb = WithdrawalsBuilder::new(); wb.add_with_native_script(&RewardAddress::new(0, &scred), &bn(5), &src).unwrap(); tb.set_withdrawals_builder(&wb); }
+            1 => { let mut cb = CertificatesBuilder::new(); cb.add_with_native_script(&Certificate::new_stake_deregistration(&StakeDeregistration::new(&scred)), &src).unwrap(); tb.set_certs_builder(&cb); }
+            _ => { let mut mb = MintBuilder::new(); mb.add_asset(&MintWitness::new_native_script(&src), &AssetName::new(vec![1]).unwrap(), &Int::new_i32(5)).unwrap(); tb.set_mint_builder(&mb); }
+        }
+        tb.add_output(&TransactionOutput::new(&addr(0, 50), &Value::new(&bn(10_000_000)))).unwrap();
+        tb.set_fee(&bn(2_000_000));
+        let predicted = match tb.full_size() { Ok(x) => x, Err(_) => continue };
+        let tx = match tb.build_tx_unsafe() { Ok(t) => t, Err(_) => continue };
+        let mut ws = tx.witness_set();
+        let mut vk = Vkeywitnesses::new();
+        vk.add(&Vkeywitness::new(&Vkey::new(&pubkey(1)), &sig()));
+        vk.add(&Vkeywitness::new(&Vkey::new(&pubkey(77)), &sig()));
+        ws.set_vkeys(&vk);
+        let signed = Transaction::new(&tx.body(), &ws, tx.auxiliary_data()).to_bytes().len();
+        if predicted < signed { failures.push(format!("native script behind a reference input with one declared signer (site {}): predicted size {} is below the signed size {} — the declared signer is not counted", site, predicted, signed)); }
+        if predicted >= signed + 100 { failures.push(format!("reference-input native script (site {}): predicted size {} exceeds the signed size {} by a whole key witness", site, predicted, signed)); }
+    }
+    for f in &failures { eprintln!("C18-DECL {}", f); }
+    assert!(failures.is_empty(), "{} declared-signer scenarios violate the property; first: {}", failures.len(), failures[0]);
+}
